@@ -230,11 +230,16 @@ func (v *version) GetAllFiles() []*FileMeta {
 func (v *version) Clone() Version {
 	newVersion := newVersion(v.fv.GetVersionSet().newVersionID(), v.fv)
 	nv := newVersion.(*version)
+	// NOTE: need deep copy, the edit log is applied to the new version while readers use the old one
 	for k, v := range v.rollup.rollupFiles {
-		nv.rollup.rollupFiles[k] = v
+		nv.rollup.rollupFiles[k] = append([]timeutil.Interval(nil), v...)
 	}
-	for k, v := range v.rollup.referenceFiles {
-		nv.rollup.referenceFiles[k] = v
+	for store, families := range v.rollup.referenceFiles {
+		newFamilies := make(map[FamilyID][]table.FileNumber, len(families))
+		for familyID, files := range families {
+			newFamilies[familyID] = append([]table.FileNumber(nil), files...)
+		}
+		nv.rollup.referenceFiles[store] = newFamilies
 	}
 	for k, v := range v.sequences {
 		nv.sequences[k] = v
